@@ -440,7 +440,11 @@ fn update_internal(_: &UpdaterLockState, channel: Option<&str>) -> anyhow::Resul
             patch.number
         );
 
+        #[cfg(feature = "verif-hooks")]
+        crate::verif_hooks::bg_thread_spawned();
         std::thread::spawn(move || {
+            #[cfg(feature = "verif-hooks")]
+            let _bg = crate::verif_hooks::BgThreadGuard;
             let event = PatchEvent::new(&config, EventType::PatchDownload, patch.number, None);
             let report_result = crate::network::send_patch_event(event, &config);
             if let Err(err) = report_result {
@@ -648,7 +652,11 @@ pub fn report_launch_success() -> anyhow::Result<()> {
         }
 
         let config_copy = config.clone();
+        #[cfg(feature = "verif-hooks")]
+        crate::verif_hooks::bg_thread_spawned();
         std::thread::spawn(move || {
+            #[cfg(feature = "verif-hooks")]
+            let _bg = crate::verif_hooks::BgThreadGuard;
             let event = PatchEvent::new(
                 &config_copy,
                 EventType::PatchInstallSuccess,
@@ -669,7 +677,11 @@ pub fn report_launch_success() -> anyhow::Result<()> {
 /// cache. The Engine calls this during boot and it will check for an update
 /// and install it if available.
 pub fn start_update_thread() {
+    #[cfg(feature = "verif-hooks")]
+    crate::verif_hooks::bg_thread_spawned();
     std::thread::spawn(move || {
+        #[cfg(feature = "verif-hooks")]
+        let _bg = crate::verif_hooks::BgThreadGuard;
         let result = update(None);
         let status = match result {
             Ok(status) => status,
